@@ -413,46 +413,62 @@ func c17Run(rc *engine.RunCtx) *engine.Result {
 	return res
 }
 
-// c17HandlerLayouts: a valid claim for every leaf of a 5-leaf tree, proofs in every layout.
+// c17HandlerLayouts: a valid claim for every leaf of a 5-leaf tree, for every combination of bridge
+// id ∈ {1,2} and output index ∈ {1,2} (the chain-computed leaf must carry the bridge id, whatever the
+// output index is); the proofs in every memory layout for (bridge 1, output 2), in the plain layout
+// elsewhere.
 func c17HandlerLayouts(report func(*engine.Violation, string), states, evals *int64) map[string]int {
 	w := newL1TwoBridges(10 * time.Second)
 	bob := world.Addr("bob").String()
-	var ws []wd
-	for i := 0; i < 5; i++ {
-		ws = append(ws, wd{Bridge: 1, Seq: uint64(i + 1), From: "l2user", To: bob, Denom: "uxx", Amount: uint64(i + 1)})
-	}
-	t := mkTree("c17", ws, 3)
 	ctx := w.Ctx
 	mustOK := func(r world.DeliverResult) {
 		if !r.OK() {
 			panic(r.Err)
 		}
 	}
-	mustOK(w.Deliver(ctx, ophosttypes.NewMsgInitiateTokenDeposit(world.Addr("alice").String(), 1, "l2", world.Coin("uxx", 50), nil)))
-	mustOK(w.Deliver(ctx, ophosttypes.NewMsgProposeOutput(world.Addr("proposer").String(), 1, 1, 10, t.OutputRoot[:])))
+	trees := map[uint64]*wtree{}
+	var wss [3][]wd
+	for b := uint64(1); b <= 2; b++ {
+		for i := 0; i < 5; i++ {
+			wss[b] = append(wss[b], wd{Bridge: b, Seq: uint64(i + 1), From: "l2user", To: bob, Denom: "uxx", Amount: uint64(i + 1)})
+		}
+		trees[b] = mkTree(fmt.Sprintf("c17-b%d", b), wss[b], 3)
+		mustOK(w.Deliver(ctx, ophosttypes.NewMsgInitiateTokenDeposit(world.Addr("alice").String(), b, "l2", world.Coin("uxx", 40), nil)))
+		mustOK(w.Deliver(ctx, ophosttypes.NewMsgProposeOutput(world.Addr("proposer").String(), b, 1, 10, trees[b].OutputRoot[:])))
+		mustOK(w.Deliver(ctx, ophosttypes.NewMsgProposeOutput(world.Addr("proposer").String(), b, 2, 20, trees[b].OutputRoot[:])))
+	}
 	ctx = world.Advance(ctx, 11*time.Second)
 	verdicts := map[string]int{}
-	for leaf := range ws {
-		proof := t.Tree.Proof(leaf)
-		values := append(append([][]byte{}, proof...), t.StorageRoot[:], t.BlockHash)
-		for _, lay := range allLayouts(len(values)) {
-			m := c17Layout(values, lay)
-			np := len(proof)
-			msg := &ophosttypes.MsgFinalizeTokenWithdrawal{Sender: bob, BridgeId: 1, OutputIndex: 1, WithdrawalProofs: m.slices[:np], From: "l2user", To: bob, Sequence: ws[leaf].Seq,
-				Amount: sdk.NewCoin("uxx", math.NewIntFromUint64(ws[leaf].Amount)), Version: []byte{3}, StorageRoot: m.slices[np], LastBlockHash: m.slices[np+1]}
-			bctx, _ := ctx.CacheContext()
-			r := w.Deliver(bctx, msg)
-			*states++
-			*evals++
-			name := fmt.Sprintf("FinalizeTokenWithdrawal(leaf=%d,layout=%v)", leaf, lay)
-			if !r.OK() {
-				verdicts["rejected"]++
-				report(tagged(viol("verdict-depends-only-on-byte-values", "%s: a valid claim was rejected under this memory layout: %v", name, r.Err), "function", "FinalizeTokenWithdrawal"), name)
-			} else {
-				verdicts["accepted"]++
-			}
-			if m.mutated() {
-				report(tagged(viol("verification-never-modifies-caller-bytes", "%s modified the caller's message bytes", name), "function", "FinalizeTokenWithdrawal"), name)
+	for b := uint64(1); b <= 2; b++ {
+		for idx := uint64(1); idx <= 2; idx++ {
+			t, ws := trees[b], wss[b]
+			for leaf := range ws {
+				proof := t.Tree.Proof(leaf)
+				values := append(append([][]byte{}, proof...), t.StorageRoot[:], t.BlockHash)
+				lays := [][]int{make([]int, len(values))}
+				if b == 1 && idx == 2 {
+					lays = allLayouts(len(values))
+				}
+				for _, lay := range lays {
+					m := c17Layout(values, lay)
+					np := len(proof)
+					msg := &ophosttypes.MsgFinalizeTokenWithdrawal{Sender: bob, BridgeId: b, OutputIndex: idx, WithdrawalProofs: m.slices[:np], From: "l2user", To: bob, Sequence: ws[leaf].Seq,
+						Amount: sdk.NewCoin("uxx", math.NewIntFromUint64(ws[leaf].Amount)), Version: []byte{3}, StorageRoot: m.slices[np], LastBlockHash: m.slices[np+1]}
+					bctx, _ := ctx.CacheContext()
+					r := w.Deliver(bctx, msg)
+					*states++
+					*evals++
+					name := fmt.Sprintf("FinalizeTokenWithdrawal(bridge=%d,output=%d,leaf=%d,layout=%v)", b, idx, leaf, lay)
+					if !r.OK() {
+						verdicts["rejected"]++
+						report(tagged(viol("verdict-depends-only-on-byte-values", "%s: a claim that is valid by the documented leaf / tree / output-root formats was rejected: %v", name, r.Err), "function", "FinalizeTokenWithdrawal"), name)
+					} else {
+						verdicts["accepted"]++
+					}
+					if m.mutated() {
+						report(tagged(viol("verification-never-modifies-caller-bytes", "%s modified the caller's message bytes", name), "function", "FinalizeTokenWithdrawal"), name)
+					}
+				}
 			}
 		}
 	}
